@@ -18,7 +18,7 @@ if [ "$FLAV" = linux ]; then
   HDIR=$V/harness; TAGS=""
 else
   cp $V/templates/zz_verif_export_kqueue.go "$SCR/fsnotify-$FLAV/"
-  HDIR=$V/harnesskq; TAGS=""
+  HDIR=$V/harness; TAGS="-tags kq"
 fi
 # residual nondeterminism scan on the rewritten copy
 if grep -nE '^\s*go |\bselect \{|<-|\.Range\(' "$SCR/fsnotify-$FLAV"/*.go | grep -v 'verif_' | grep -vE '(chan<-|<-chan)' ; then
@@ -42,5 +42,5 @@ cp $V/sim/go.sum "$SCR/harness-$FLAV.sum" 2>/dev/null
 OUT="$SCR/harness-$FLAV"
 RF=""
 if [ -n "$RACE" ]; then RF="-race"; OUT="$OUT.race"; fi
-(cd $HDIR && go build $RF -modfile="$MODF" -o "$OUT" . ) || { echo "BUILD-FAILURE: harness"; exit 2; }
+(cd $HDIR && go build $RF $TAGS -modfile="$MODF" -o "$OUT" . ) || { echo "BUILD-FAILURE: harness"; exit 2; }
 echo "built $OUT"
